@@ -51,7 +51,19 @@ class Submodule(Module):
         if not self.ancestor_name:
             return
         if self.ancestor_name in obj_tree:
-            self.ancestor_obj = obj_tree[self.ancestor_name][0]
+            ancestor_obj = obj_tree[self.ancestor_name][0]
+            # A submodule cannot be its own ancestor (directly or through its
+            # parent's ancestry), ignore parents that would close such a loop
+            seen = []
+            tmp_obj = ancestor_obj
+            while (
+                (tmp_obj is not None)
+                and (tmp_obj is not self)
+                and all(tmp_obj is not obj for obj in seen)
+            ):
+                seen.append(tmp_obj)
+                tmp_obj = getattr(tmp_obj, "ancestor_obj", None)
+            self.ancestor_obj = ancestor_obj if tmp_obj is None else None
 
     def require_inherit(self):
         return True
